@@ -323,6 +323,65 @@ fn offset_scenario(off: usize, stall: bool, oversized: bool) -> Result<Option<(S
     Ok(None)
 }
 
+/// Connections that queue behind a full limit without having sent anything, for `wait` seconds of
+/// virtual time while the slot holders stay active; then `ender` frees one slot: the oldest queued
+/// client sends its first request only now and must be served, the next one as soon as that one leaves.
+fn queued_wait_scenario(limit: usize, wait: u64, ender: End) -> Result<Option<(String, String)>, String> {
+    let item_limit = 1024;
+    let w = NetWorld::new(NetCfg { conn_limit: limit as u32, item_limit, ..Default::default() })?;
+    let name = format!("limit={} queued clients silent for {} s, slot freed by {:?}", limit, wait, ender);
+    let mut holders: Vec<Conn> = vec![];
+    for i in 0..limit {
+        holders.push(open(&w, 0x300 + i as u32)?);
+    }
+    refresh(&w, &mut holders);
+    if holders.iter().filter(|c| c.served).count() != limit {
+        return Ok(Some(("queued|holders-not-served".into(), format!("{}: not all of the first {} connections are served", name, limit))));
+    }
+    // two clients connect and stay silent
+    let mut q1 = w.connect()?;
+    let mut q2 = w.connect()?;
+    let mut waited = 0u64;
+    while waited < wait {
+        let step = (wait - waited).min(30);
+        w.advance(step);
+        waited += step;
+        for h in holders.iter_mut() {
+            let id = h.id;
+            let _ = h.c.step(&w, &noop(id));
+        }
+    }
+    if let Some(p) = end_conn(&w, &mut holders, 0, ender, item_limit) {
+        return Ok(Some((format!("queued|ending|{:?}", ender), format!("{}: {}", name, p))));
+    }
+    w.settle();
+    let _ = q1.step(&w, &noop(0x401));
+    let _ = q2.step(&w, &noop(0x402));
+    w.settle();
+    q1.pump();
+    q2.pump();
+    let a = [count_noops(&q1), count_noops(&q2)];
+    if a != [1, 0] || q1.eof || q2.eof {
+        return Ok(Some((
+            "queued|not-picked-up".into(),
+            format!(
+                "{}: the two queued clients then sent a noop each and received {:?} answers (closed by the server: {} / {}), expected [1, 0] and both open",
+                name, a, q1.eof, q2.eof
+            ),
+        )));
+    }
+    q1.close(&w);
+    w.settle();
+    q2.pump();
+    if count_noops(&q2) != 1 || q2.eof {
+        return Ok(Some((
+            "queued|second-not-picked-up".into(),
+            format!("{}: after the first queued client left, the second one has {} answers (closed by the server: {})", name, count_noops(&q2), q2.eof),
+        )));
+    }
+    Ok(None)
+}
+
 pub fn check(tier: Tier, threads: usize) -> CheckOutcome {
     let t0 = Instant::now();
     let limits: Vec<usize> = if tier == Tier::Quick { vec![1, 2] } else { vec![1, 2, 3, 4] };
@@ -414,6 +473,33 @@ pub fn check(tier: Tier, threads: usize) -> CheckOutcome {
         }
     }
     events += offs.len() as u64 * 4;
+    // silent clients queued behind a full limit for 0 .. 150 s of virtual time
+    let mut qcases: Vec<(usize, u64, End)> = vec![];
+    for l in if tier == Tier::Quick { vec![1usize, 2] } else { vec![1usize, 2, 3, 4] } {
+        for wait in [0u64, 30, 59, 61, 90, 150] {
+            for e in [End::Close, End::Quit, End::QuitQ, End::Reset, End::BadMagic] {
+                qcases.push((l, wait, e));
+            }
+        }
+    }
+    let qres = par_map(&qcases, threads, |_, (l, wt, e)| queued_wait_scenario(*l, *wt, *e));
+    for ((l, wt, e), r) in qcases.iter().zip(qres.iter()) {
+        match r {
+            Err(er) if er.starts_with("connect:") => {
+                found.entry("server|not-accepting".into()).or_insert(Violation {
+                    signature: "server|not-accepting".into(),
+                    what: format!("limit {} queued {} s {:?}: {}", l, wt, e, er),
+                    replay: json!({"engine": "c17-queued"}),
+                });
+            }
+            Err(er) => mach = Some(er.clone()),
+            Ok(Some((sig, what))) => {
+                found.entry(sig.clone()).or_insert(Violation { signature: sig.clone(), what: what.clone(), replay: json!({"engine": "c17-queued", "limit": l, "wait": wt, "ender": format!("{:?}", e)}) });
+            }
+            Ok(None) => {}
+        }
+    }
+    events += qcases.len() as u64 * 8;
     let samples: Vec<serde_json::Value> = cases
         .iter()
         .step_by((cases.len() / 5).max(1))
@@ -429,6 +515,7 @@ pub fn check(tier: Tier, threads: usize) -> CheckOutcome {
             "distinct_nontrivial": cases.len() + offs.len(),
             "states": cases.len() + offs.len(),
             "byte_offset_scenarios": offs.len(),
+            "queued_silent_client_scenarios": qcases.len(),
             "transitions": events,
             "traces_validated_against_impl": cases.len(),
             "limits": limits,
@@ -448,6 +535,26 @@ pub fn check(tier: Tier, threads: usize) -> CheckOutcome {
 fn _unused(_: net::NetCfg) {}
 
 pub fn replay(v: &serde_json::Value) -> Result<Option<String>, String> {
+    if v["engine"].as_str() == Some("c17-queued") {
+        let l = v["limit"].as_u64().unwrap_or(1) as usize;
+        let wt = v["wait"].as_u64().unwrap_or(0);
+        let e = ENDS.iter().copied().find(|e| Some(format!("{:?}", e).as_str()) == v["ender"].as_str()).ok_or("unknown ending kind")?;
+        let a = queued_wait_scenario(l, wt, e)?;
+        let b = queued_wait_scenario(l, wt, e)?;
+        if a != b {
+            return Err("two replays of the same scenario differ".into());
+        }
+        return Ok(a.map(|(s, w)| format!("{}: {}", s, w)));
+    }
+    if v["engine"].as_str() == Some("c17-offset") {
+        let (o, st, big) = (v["offset"].as_u64().unwrap_or(0) as usize, v["stall"].as_bool().unwrap_or(false), v["oversized"].as_bool().unwrap_or(false));
+        let a = offset_scenario(o, st, big)?;
+        let b = offset_scenario(o, st, big)?;
+        if a != b {
+            return Err("two replays of the same scenario differ".into());
+        }
+        return Ok(a.map(|(s, w)| format!("{}: {}", s, w)));
+    }
     let limit = v["limit"].as_u64().unwrap_or(1) as usize;
     let kinds: Vec<End> = v["lifecycles"]
         .as_array()
